@@ -804,6 +804,15 @@ func (c *Conn) finishHeld(r *Ctx, stream uint32, err error) {
 
 	if pb := c.takePending(stream); pb != nil {
 		c.closeBodyStream(pb)
+
+		// The server has answered before the whole request body went out
+		// (RFC 7540 8.1). What is left will not be sent, and the server has to
+		// be told: without END_STREAM or RST_STREAM from us the stream stays
+		// open on its side and goes on counting against
+		// SETTINGS_MAX_CONCURRENT_STREAMS while we think the slot is free.
+		if err == nil {
+			c.cancelStream(stream, StreamCanceled)
+		}
 	}
 
 	r.markFinished()
